@@ -738,6 +738,12 @@ func checkC15e2e(h *History, vs []*opView) {
 				h.S.Fail("C15", "refused-but-forwarded", "%s was refused by the limiter but its question reached an upstream", name)
 			}
 		}
+		if v.srv.Proto == "udp" && len(v.o.Resps) == 0 && v.o.Op.Raw == nil && !inUpstream[v.o.Op.Token] {
+			// neither forwarded nor answered: client links lose nothing here, so
+			// the limiter refused it and the REFUSED answer did not reach the
+			// client (e.g. it left from another local address)
+			h.S.Fail("C15", "refused-unanswered", "%s got no response at all and was not forwarded: a refused UDP query is answered REFUSED", name)
+		}
 		if v.isHTTP && len(v.o.Resps) > 0 && v.o.Resps[0].Status != 200 && v.o.Resps[0].Status != 503 && v.o.Op.HTTPVariant == "" {
 			h.S.Fail("C15", "http-refusal-status", "%s: HTTP status %d (refusals must be 503)", name, v.o.Resps[0].Status)
 		}
